@@ -46,7 +46,7 @@ def corpus_scenarios(pid):
     return out
 
 
-def run_scripts(pid, rundir, scenarios, vh=VH, shards=16, verbose=False, driver=True, timeout=3000):
+def run_scripts(pid, rundir, scenarios, vh=VH, shards=16, verbose=False, driver=True, timeout=3000, dflags=""):
     """Execute scenarios on the implementation (vh run) and, if driver, on the model.
     Returns dict(traces=[paths], checked, mismatches=[text], oracle=[text], impl_errors)."""
     shards = max(1, min(shards, len(scenarios)))
@@ -62,8 +62,8 @@ def run_scripts(pid, rundir, scenarios, vh=VH, shards=16, verbose=False, driver=
                 f.write("\n".join(s) + "\n")
         c = "%s run -in %s -out %s %s" % (vh, sp, tp, "-v" if verbose else "")
         if driver:
-            c += " && (ulimit -s unlimited 2>/dev/null || ulimit -s 1000000; %s %s %s)" % (
-                os.path.join(core.BUILD, "driver"), "-v" if verbose else "", tp)
+            c += " && (ulimit -s unlimited 2>/dev/null || ulimit -s 1000000; %s %s %s %s)" % (
+                os.path.join(core.BUILD, "driver"), "-v" if verbose else "", dflags, tp)
         cmds.append(c)
         traces.append(tp)
     env_prefix = "export GOFLAGS=-mod=mod GOPROXY=off; "
@@ -73,7 +73,7 @@ def run_scripts(pid, rundir, scenarios, vh=VH, shards=16, verbose=False, driver=
         m = re.search(r"CHECKED (\d+) MISMATCHES (\d+)", out)
         if m:
             checked += int(m.group(1))
-        elif driver:
+        elif driver and rc in (0, 1):
             errors.append(out[-2000:])
         mism.extend(re.findall(r"MISMATCH .*\n  impl : .*\n  model: .*", out))
         if os.path.exists(tp):
@@ -81,7 +81,16 @@ def run_scripts(pid, rundir, scenarios, vh=VH, shards=16, verbose=False, driver=
                 if l.startswith("X "):
                     oracle.append(l)
         if rc not in (0, 1):
-            errors.append("rc=%d %s" % (rc, out[-2000:]))
+            died = re.search(r"(fatal error: [^\n]*|unexpected signal[^\n]*|SIGBUS[^\n]*|signal: [^\n]*)", out)
+            last = None
+            if os.path.exists(tp):
+                for l in read_lines(tp):
+                    if l.startswith("# begin S "):
+                        last = l.split()[3]
+            if died and last is not None:
+                oracle.append("X %s scenario=%s the engine killed the process: %s" % (pid, last, died.group(1)))
+            else:
+                errors.append("rc=%d %s" % (rc, out[-2000:]))
     return {"traces": traces, "checked": checked, "mismatches": mism, "oracle": oracle, "errors": errors}
 
 
@@ -137,7 +146,47 @@ def corr_file_layer(pid, tier, seed, kinds):
             "mismatches": r["mismatches"], "oracle": r["oracle"], "errors": r["errors"], "scen_index": idx}
 
 
+def corr_engine(pid, tier, seed, feat, nq, nt, ops=30, dflags="", oracle_props=None, io=None, extra=""):
+    """Engine-layer correspondence: generated scenarios run on the real engine and on the model."""
+    rundir = _rundir(pid)
+    scen = corpus_scenarios(pid)
+    n = nq if tier == "quick" else nt
+    args = "-feat %s -ops %d %s" % (feat, ops, extra)
+    if io is not None:
+        args += " -io %d" % io
+    s, hist = gen_scripts("enginegen", seed, n, rundir, extra=args)
+    scen.extend(s)
+    for i, sc in enumerate(scen):
+        sc[0] = "S %d" % i
+    r = run_scripts(pid, rundir, scen, dflags=dflags)
+    idx = {str(i): sc for i, sc in enumerate(scen)}
+    props_ = oracle_props or [pid]
+    oracle = [o for o in r["oracle"] if o.split()[1] in props_]
+    nontriv = nontrivial_count(scen, lambda sc: sum(1 for l in sc if l.startswith("E put") or l.startswith("E bput")) >= 3)
+    sample = scen[len(scen) // 2] if scen else []
+    return {"evaluations": len(scen), "distinct_nontrivial": nontriv,
+            "rule": "engine scenarios generated from VERIF_SEED by harness/vh enginegen (features: %s; see input_distribution); non-trivial = at least three mutations; distinct by md5 of the op lines; every line is executed on the real engine (built from /repo with -tags verif) and on the extracted model and compared (%s)" % (feat, dflags or "results and I/O events"),
+            "samples": [sample[:25]], "hist": hist, "observations_compared": r["checked"],
+            "mismatches": r["mismatches"], "oracle": oracle, "errors": r["errors"], "scen_index": idx,
+            "extra_oracle_lines_other_properties": len(r["oracle"]) - len(oracle)}
+
+
+NOEV = "-noevents -skip files,stat,pos"
+
 REGISTRY = {
+    "C01": {
+        "corr": lambda tier, seed: corr_engine("C01", tier, seed, "batches,merges,bigvals", 120, 3000, ops=40,
+                                               dflags=NOEV, oracle_props=["C01", "C10"]),
+        "assumptions": ["theorems are about the record-level engine model (coq/model/Engine.v, Script.v); its tie to db.go/batch.go/merge.go is the differential run of this check",
+                        "index type and shard count are abstracted to one ordered map (C10/C14 treat the sharded index)",
+                        "file-system calls do not fail"],
+    },
+    "C05": {
+        "corr": lambda tier, seed: corr_engine("C05", tier, seed, "batches,restarts,bigvals", 120, 3000, ops=30,
+                                               dflags=NOEV, oracle_props=["C05"]),
+        "assumptions": ["theorems are about the record-level engine model; the hash index of the staging area is abstracted to a key lookup (any hash function gives the same result)",
+                        "a double Commit is a rejected call in the model; the absence of a double unlock is observed by the correspondence run only"],
+    },
     "C11": {
         "corr": lambda tier, seed: corr_file_layer("C11", tier, seed, [("filegen", 160, 4000)]),
         "design_ref": "DESIGN.md section 4 C11",
